@@ -37,7 +37,13 @@ ua  RemoveCodeTransformation(remove_unused_args=True) through the Scheduler over
     loop, callee shared by two callers, upper-case spelling.
 
 Every combination of <= d blocks (d=1 quick, d=2 thorough) x the family's transformation variants is built twice
-(original / transformed; gfortran -O0 -fcheck=bounds -finit-integer) with the same harness-owned driver, which
+(original / transformed; gfortran -O0 -fcheck=bounds -finit-integer) with the same harness-owned driver.  In the
+thorough tier the pairs are formed from the blocks that hold on their own for the variant at hand: a block that
+violates alone gives every superset its signature, so it is reported at d=1 and not combined further (those pairs are
+counted as `pairs_subsumed_by_a_violating_single`); the pair programs are compiled 16 kernels (8 call-tree modules)
+per build, and a build that does not pass cleanly is re-run pair by pair so that every verdict and every replay
+refers to a single-kernel program.  `make_cases(d)` still returns the full, static d-bounded stream (C40/C41).
+The driver
 calls the kernel on the complete grid x in {-1,0,1,2,4,7} x n in {0,2,3} x flag in {T,F} *in one process* (so SAVE
 semantics are observable) and prints every output slot.  DO WHILE loops of the templates call a tick() routine
 that stops the program after 5000 iterations, so a rewrite that makes a loop infinite fails fast.
@@ -59,7 +65,8 @@ META = dict(
     level_text='all combinations of <= d feature blocks of 4 templates (constant propagation, dead code, unused variables, '
                'unused dummies over a 3-level call tree) x {constprop(unroll -/+), constprop+deadcode, deadcode(simplify -/+), '
                'RemoveCodeTransformation variants, remove_unused_vars(only_arrays -/+), Scheduler-driven unused-argument '
-               'removal}: transformed code compiles and prints exactly the original output on 36 inputs; exhaustive for d',
+               'removal}: transformed code compiles and prints exactly the original output on 36 inputs; exhaustive for d '
+               '(d=2: pairs of blocks that hold alone; pairs containing a block that violates alone are subsumed by its finding)',
     level_note='gfortran 12 -O0 -fcheck=bounds -finit-integer=-9999 is the semantics; exact dyadic reals; the original program '
                'must build and run (else HARNESS-ERROR)',
 )
@@ -469,6 +476,8 @@ def apply(case, files):
     """in place on `files` (for xform 'sched' the dict entries are replaced by the Scheduler's Sourcefile objects)"""
     try:
         return _apply(case, files)
+    except w2_xgroup.HarnessProblem:
+        raise
     except Exception as ex:  # pylint: disable=broad-except
         crash = internal_crash(ex)
         if crash:
@@ -526,11 +535,17 @@ def _apply(case, files):
 def apply_sched(case, files, opts):
     from loki import Scheduler, SchedulerConfig, Frontend
     from loki.transformations.remove_code import RemoveCodeTransformation
-    base = '/dev/shm' if Path('/dev/shm').is_dir() else None
-    d = Path(tempfile.mkdtemp(prefix='c32s_', dir=base))
+    base = worker.base if worker.base and Path(worker.base).is_dir() else ('/dev/shm' if Path('/dev/shm').is_dir() else None)
     try:
-        for fname, text in case['sources']:
-            (d / fname).write_text(text)
+        d = Path(tempfile.mkdtemp(prefix='c32s_', dir=base))
+    except OSError as ex:
+        raise w2_xgroup.HarnessProblem(f'mkdtemp: {ex}') from ex
+    try:
+        try:
+            for fname, text in case['sources']:
+                (d / fname).write_text(text)
+        except OSError as ex:
+            raise w2_xgroup.HarnessProblem(f'writing scheduler sources: {ex}') from ex
         config = SchedulerConfig.from_dict({
             'default': {'role': 'kernel', 'expand': True, 'strict': False, 'enable_imports': True},
             'routines': {'top': {'role': 'driver'}}})
@@ -544,7 +559,7 @@ def apply_sched(case, files, opts):
                 files[name] = src
                 done.add(name)
         if set(done) != set(files):
-            raise RuntimeError(f'harness: scheduler did not pick up {sorted(set(files) - done)}')
+            raise w2_xgroup.HarnessProblem(f'scheduler did not pick up {sorted(set(files) - done)}')
     finally:
         shutil.rmtree(d, ignore_errors=True)
 
@@ -724,6 +739,8 @@ def run(ctx):
     if d == 2:
         pc, pr, pair_info = run_pairs(ctx, cases, by_id)
         cases, results = cases + pc, results + pr
+    results, flaky = w2_xgroup.confirm_violations(ctx, cases, results, group_worker)
+    by_id = {**by_id, **{r['id']: r for r in results}}
     xform.summarise(ctx, cases, results, sigfn(by_id), min_changed=40)
     per_family = {}
     for c, r in zip(cases, results):
@@ -739,7 +756,7 @@ def run(ctx):
         bound=dict(max_blocks=d, blocks=dict(cp=len(CP_BLOCKS) - 1, dc=len(DC_BLOCKS) - 1, uv=len(UV_BLOCKS) - 1,
                                              ua={k: len(v) for k, v in UA_MENU.items()}),
                    xforms=dict(cp=len(CP_XF), dc=len(DC_XF), uv=len(UV_XF), ua=len(UA_XF)), inputs=36),
-        per_family=per_family, pairs=pair_info,
+        per_family=per_family, flaky_verdicts=flaky, pairs=pair_info,
         rule=f'per template all combinations of <= {d} feature blocks x the transformation variants'
              + (' (pairs: only of blocks that hold on their own for that variant; pairs containing a block that violates '
                 f'alone carry its signature and are counted as subsumed; {BATCH} pair-kernels per compiled module, a module '
